@@ -159,6 +159,8 @@ def gen_cases(ctx):
     out = cases + stress
     for i, c in enumerate(out):
         c["id"] = i
+        # most runs use unbounded stage mailboxes (see the Go harness), every 7th the default bounded ones
+        c["unbounded"] = (i % 7 != 3) or len(c["input"]) > 300
     return out
 
 
@@ -390,7 +392,7 @@ def run(ctx):
     scases = gen_step_cases(ctx)
     with open(os.path.join(ctx.work, "c45_in.jsonl"), "w") as f:
         for c in cases:
-            f.write(json.dumps({k: c[k] for k in ("id", "input", "ops", "fuse")}) + "\n")
+            f.write(json.dumps({k: c[k] for k in ("id", "input", "ops", "fuse", "unbounded")}) + "\n")
     with open(os.path.join(ctx.work, "c45_steps_in.jsonl"), "w") as f:
         for c in scases:
             f.write(json.dumps({k: c[k] for k in ("id", "kind", "ops", "input", "init", "refill", "script") if k in c}) + "\n")
@@ -409,7 +411,7 @@ def run(ctx):
     if slow and len(slow) <= 12:
         with open(os.path.join(ctx.work, "c45_in2.jsonl"), "w") as f:
             for c in slow:
-                f.write(json.dumps({k: c[k] for k in ("id", "input", "ops", "fuse")}) + "\n")
+                f.write(json.dumps({k: c[k] for k in ("id", "input", "ops", "fuse", "unbounded")}) + "\n")
         rc_, out_ = ctx.go_test("stream", "^TestVerifC45Pipelines", ["zz_verif_C45_test.go"],
                                 env={"VERIF_PAR": "1", "C45_IN": "c45_in2.jsonl", "C45_OUT": "c45_out2.jsonl",
                                      "VERIF_CASE_TIMEOUT_MS": "45000"}, timeout=900)
@@ -419,7 +421,8 @@ def run(ctx):
 
     # ---- step runs: oracle, then which batch actor is in the tree
     batch_defect = False
-    n_viol = 0
+    n_viol = n_batch = 0
+    ctx.log("go harness done: %d pipelines, %d step cases" % (len(res), len(sres)))
     for c in scases:
         r = sres.get(c["id"])
         if r is None:
@@ -428,6 +431,9 @@ def run(ctx):
         if why:
             if c["kind"] == "batch":
                 batch_defect = True
+                n_batch += 1
+                if n_batch > 2:
+                    continue
                 ctx.violation(BATCH_SIG, "batchFlowActor (Batch %d) driven step by step: %s" % (c["ops"][0]["n"], why),
                               {"stage": "stream.batchFlowActor", "maxSize": c["ops"][0]["n"], "script": c["script"], "observed": r})
             elif n_viol < 4:
@@ -447,6 +453,9 @@ def run(ctx):
             bad_py[c["id"]] = why
             has_batch = any(o["k"] == "batch" for o in c["ops"])
             if batch_defect and c.get("stress") and has_batch:
+                n_batch += 1
+                if n_batch > 3:
+                    continue
                 ctx.violation(BATCH_SIG, "pipeline with Batch: " + why,
                               {"pipeline": c["ops"], "input_len": len(c["input"]), "fuse": c["fuse"], "observed_items": len(r["items"])})
             elif n_viol < 6:
@@ -517,6 +526,7 @@ Eval vm_compute in (%s).
                                {"mismatching_cases": len(other), "first_case": c, "implementation": enc_obs(sres[c["id"]]),
                                 "model": " ".join(o3.split())[-3000:]})
 
+    ctx.log("model evaluation done")
     # ---- theorems
     if not ctx.coq_property():
         if not any(f.kind == "violation" and f.signature != BATCH_SIG for f in ctx.findings):
